@@ -3,6 +3,8 @@ package c01
 import (
 	"strings"
 
+	"verif/lib/benchgen"
+
 	"verif/lib/stats"
 )
 
@@ -10,51 +12,30 @@ import (
 // machine-checkable signatures. A failing case that matches none of them is
 // reported as a violation.
 
-// rereadsAcrossKernels reports whether the run launches at least three
-// kernels of which a later one re-reads (typically on another compute unit)
-// global data that an earlier kernel read and an intermediate one rewrote:
-// in-place passes (floydwarshall) or ping-pong buffers (pagerank, nbody,
-// stencil2d) with >= 3 passes.
-func rereadsAcrossKernels(c Case) bool {
-	switch c.Workload {
-	case "floydwarshall":
-		it := c.P["iter"]
-		if it == 0 || it > c.P["node"] { // floydwarshall.go:151 resets it to the node count
-			it = c.P["node"]
-		}
-		return it >= 3
-	case "pagerank":
-		return c.P["iterations"] >= 3
-	case "nbody", "stencil2d":
-		return c.P["iter"] >= 3
-	}
-	return false
-}
-
 func enginePanic(stderr string) bool {
 	return strings.Contains(stderr, "(*Driver).runEngine") || strings.Contains(stderr, "driver.go") && strings.Contains(stderr, "Panic:")
 }
 
-func matchKnown(c Case, o outcome) string {
+func matchKnown(c Case, o benchgen.Outcome) string {
 	// C01-K1: timing mode + unified memory + more than one GPU (always with a
 	// plain GPU set, with a unified device when a work-group touches a page that
 	// lives on another GPU): the first page migration crashes the command
 	// processor (its Driver port is never wired).
 	if c.Timing && c.UnifiedMemory && len(c.GPUs) > 1 &&
-		strings.Contains(o.stderr, "processRDMADrainRsp") && strings.Contains(o.stderr, "nil pointer dereference") {
+		strings.Contains(o.Stderr, "processRDMADrainRsp") && strings.Contains(o.Stderr, "nil pointer dereference") {
 		return "C01-K1"
 	}
 	// C01-K2: timing mode, stale L1 vector-cache lines across kernel launches.
 	// Signature: a verification mismatch reported by the workload itself (not an
 	// engine panic) in timing mode, in a run with >= 3 dependent kernel passes
 	// over the same buffers, and the very same case passes in emulation.
-	if c.Timing && rereadsAcrossKernels(c) && !enginePanic(o.stderr) && evidenceRe.MatchString(o.stderr) && stats.KnownActive("C01-K2") {
+	if c.Timing && benchgen.RereadsAcrossKernels(c) && !enginePanic(o.Stderr) && evidenceRe.MatchString(o.Stderr) && stats.KnownActive("C01-K2") {
 		e := c
 		e.Timing = false
 		e.GPUType = ""
 		if admissible(e) == "" {
-			eo := runWorker(e)
-			if eo.harness == "" && !eo.timedOut && eo.exit == 0 && eo.signal == "" {
+			eo := benchgen.RunWorker(e, nil)
+			if eo.Harness == "" && !eo.TimedOut && eo.Exit == 0 && eo.Signal == "" {
 				return "C01-K2"
 			}
 		}
